@@ -485,6 +485,13 @@ class Interp:
             return True
         return None
 
+    @staticmethod
+    def _per_element_question(key: str) -> bool:
+        if not key.startswith("nonempty?") or "(&:" in key or key.startswith("nonempty?~"):
+            return False
+        atoms = key[len("nonempty?"):].split("+")
+        return bool(atoms) and all("[i]" in a for a in atoms)
+
     def s_If(self, st, env):
         n0 = len(self.trace.events)
         t = self.eval(st.test, env)
@@ -498,6 +505,19 @@ class Interp:
             dec = self.trace.decided[tkey[0]] ^ tkey[1]
         if dec is None:
             self.taint_by(t, st.test)
+        if dec is None and self.join_depth > 0 and tkey is not None and self._per_element_question(tkey[0]):
+            # inside a summarised loop, "is THIS element's collection empty?" (tasks_params[i]): the path assumes the same answer for every
+            # element — two uniform paths instead of one summary in which objects of different make-up would have to be merged
+            if tkey[0] in self.trace.decided:
+                dec = self.trace.decided[tkey[0]] ^ tkey[1]
+            else:
+                c = self.oracle.decide(site, 2)
+                self.trace.decisions.append(f"{'T' if c == 0 else 'F'}[{norm_text(st.test)} (every element)]")
+                self.trace.decided[tkey[0]] = (c == 0) ^ tkey[1]
+                dec = c == 0
+            self.event("decision", st, test=norm_text(st.test), outcome=bool(dec), forced=False, compares=cmps, key=tkey[0], key_neg=tkey[1], uniform=True)
+            self.ops.assume(st.test, bool(dec), env)
+            return self.exec_block(st.body if dec else st.orelse, env)
         if dec is not None:
             self.event("decision", st, test=norm_text(st.test), outcome=bool(dec), forced=True, compares=cmps, key=tkey[0] if tkey else None, key_neg=tkey[1] if tkey else None)
             return self.exec_block(st.body if dec else st.orelse, env)
